@@ -1,4 +1,5 @@
 import EmbitModel.Proofs.ViewCost
+import EmbitModel.Proofs.ViewCost2
 /-
   C17, part V — the STREAMING VIEWS terminate promptly: iteration and stream-call bounds of the seeking loops of
   `psbtview.py` / `liquid/psetview.py` (instrumented in `Model/ViewCost.lean`), for EVERY buffer, every start position and
@@ -59,7 +60,6 @@ theorem skip_scope_erases (buf : Bytes) : ∀ (fuel pos : Nat),
           obtain ⟨x, p2⟩ := q2
           have hb : skipScopeBody buf () pos = (.cont () p2, 6) := by simp [skipScopeBody, h, hk, h2]
           rw [hb]; simp only [skipScopeAt, h, hk, h2, if_false]; exact ih p2
--- GOAL (not proved): seek_to_scope(n) — the nested loop does <= |buf| - firstScope + 1 rounds of _skip_scope in total, whatever n
 -- GOAL (not proved): seek_to_value / PSBTView.view global loop — rounds <= |buf| - pos + 1, steps <= c·|buf| + d with the read_bytes pieces amortised
 -- GOAL (not proved): hash_rangeproofs — <= (|buf|+1)·(c·|buf|+d) steps (the loop over num_outputs re-seeks from the first scope)
 -- GOAL (not proved): instrumented PSET scope parser and LTransaction.read_from (style of C17Y)
@@ -198,5 +198,159 @@ theorem skip_scope_linear (buf : Bytes) (fuel pos : Nat) :
   omega
 
 example : (match (skipScopeC [1, 7, 1, 9, 0] 10 0).out with | .done _ p => p | _ => 0) = 5 := by decide +kernel
+
+/-! ### `GlobalLTransactionView.vin(i)`: the `_skip_input` loop with the caller's index as counter -/
+
+/-- the loop of `vin(i)`: at most `min i ((|buf| - vin0 + 5)/41 + 1)` iterations, 9 stream calls per iteration,
+    for every buffer, start and index -/
+theorem vin_skip_loop_linear (buf : Bytes) (i vin0 : Nat) :
+    (vinSkipLoop true buf i vin0).iters ≤ min i ((buf.length - vin0 + 5) / 41 + 1) ∧
+    (vinSkipLoop true buf i vin0).steps ≤ 9 * min i ((buf.length - vin0 + 5) / 41 + 1) := by
+  have h1 := loop_iters_le (skipInputBody true buf) i 0 vin0
+  have h2 := loop_iters_bound (skipInputBody true buf) buf.length 36 41 (by omega) (by omega)
+    (skipInputBody_progress buf) i 0 vin0
+  have h3 := loop_steps_le (skipInputBody true buf) 8 (skipInputBody_cost true buf) i 0 vin0
+  unfold vinSkipLoop
+  omega
+
+/-- `GlobalLTransactionView(stream, off).vin(i)` up to the input parser: at most `min i (|buf|/41 + 1)` iterations and
+    `9·min i (|buf|/41 + 1) + 4` stream calls for EVERY buffer, offset, index and claimed number of inputs -/
+theorem vin_seek_linear (buf : Bytes) (off i : Nat) :
+    (vinSeekC true buf off i).2.1 ≤ min i (buf.length / 41 + 1) ∧
+    (vinSeekC true buf off i).2.2 ≤ 9 * min i (buf.length / 41 + 1) + 4 := by
+  unfold vinSeekC
+  cases h : compactAt buf (off + 5) with
+  | none => simp
+  | some q =>
+    obtain ⟨n, vin0⟩ := q
+    obtain ⟨_, hp⟩ := compactAt_progress h
+    obtain ⟨h2, h3⟩ := vin_skip_loop_linear buf i vin0
+    simp only
+    split
+    · simp
+    · split <;> (simp only; omega)
+
+/-- the code BEFORE the fix: `vin(i)` does exactly `i` iterations once the position is within 32 bytes of the end -/
+theorem old_vin_skip_loop_unbounded (buf : Bytes) (i vin0 : Nat) (h : buf.length ≤ vin0 + 32) :
+    (vinSkipLoop false buf i vin0).iters = i :=
+  old_skip_input_loop_unbounded buf i 0 vin0 h
+
+example : (vinSeekC true hostile30 0 1000).2.1 = 1 ∧ (vinSeekC true hostile30 0 1000).1 = none := by decide +kernel
+example : (vinSeekC true ([2, 0, 0, 0, 0, 2] ++ List.replicate 82 0) 0 1).1 = some 47 := by decide +kernel
+
+/-! ### `PSBTView.seek_to_scope(n)`: the nested loop, amortised -/
+
+/-- a `_skip_scope` that returns has walked over what it counted: `2·rounds ≤ (p - pos) + 1`, and it stands inside the
+    buffer, at least one byte further. Hence a `_skip_scope` started AT or PAST the end of the stream never returns
+    (it raises: `compact.read_from` finds no byte) -/
+theorem skip_scope_consumes (buf : Bytes) (fuel pos : Nat) (a : Unit) (p : Nat)
+    (h : (skipScopeC buf fuel pos).out = .done a p) :
+    2 * (skipScopeC buf fuel pos).iters + pos ≤ p + 1 ∧ pos + 1 ≤ p ∧ p ≤ buf.length := by
+  unfold skipScopeC at h ⊢
+  have h1 := loop_done_progress (skipScopeBody buf) 2 1
+    (fun s pos s' p' c hb => (skipScopeBody_progress buf s pos s' p' c hb).2)
+    (fun s pos a p' c hb => (skipScopeBody_done buf s pos a p' c hb).1) fuel () pos a p h
+  have h2 := loop_done_inv (skipScopeBody buf) (fun q => q ≤ buf.length)
+    (fun s pos a p' c hb => (skipScopeBody_done buf s pos a p' c hb).2) fuel () pos a p h
+  have h3 : 1 ≤ (loop (skipScopeBody buf) fuel () pos).iters := by
+    cases fuel with
+    | zero => simp [loop] at h
+    | succ m => unfold loop; split <;> (simp only; omega)
+  omega
+
+/-- the invariant of the outer loop (every fuel, every n, every start) -/
+theorem seek_scopes_invariant (buf : Bytes) (fuel : Nat) : ∀ (n pos : Nat),
+    (seekScopesC buf fuel n pos).scopes ≤ n ∧
+    (seekScopesC buf fuel n pos).steps ≤ 7 * (seekScopesC buf fuel n pos).rounds + (seekScopesC buf fuel n pos).scopes ∧
+    (buf.length < pos → (seekScopesC buf fuel n pos).scopes ≤ 1 ∧
+      (seekScopesC buf fuel n pos).rounds ≤ (seekScopesC buf fuel n pos).scopes) ∧
+    (pos ≤ buf.length → (seekScopesC buf fuel n pos).scopes + pos ≤ buf.length + 1 ∧
+      2 * (seekScopesC buf fuel n pos).rounds + pos ≤ buf.length + (seekScopesC buf fuel n pos).scopes + 1) := by
+  intro n
+  induction n with
+  | zero => intro pos; simp [seekScopesC]; omega
+  | succ n ih =>
+    intro pos
+    have hb := loop_iters_bound (skipScopeBody buf) buf.length 2 2 (by omega) (by omega)
+      (skipScopeBody_progress buf) fuel () pos
+    have hs := loop_steps_le (skipScopeBody buf) 6 (skipScopeBody_cost buf) fuel () pos
+    unfold seekScopesC
+    simp only
+    split
+    · rename_i a p ho
+      obtain ⟨c1, c2, c3⟩ := skip_scope_consumes buf fuel pos a p ho
+      obtain ⟨i1, i2, _, i4⟩ := ih p
+      obtain ⟨i5, i6⟩ := i4 c3
+      unfold skipScopeC at c1 ⊢
+      simp only
+      refine ⟨by omega, by omega, fun hl => by omega, fun hl => by omega⟩
+    · unfold skipScopeC
+      simp only
+      refine ⟨by omega, by omega, fun hl => by omega, fun hl => by omega⟩
+
+/-- `seek_to_scope(n)` (the loop from `pos = first_scope`), for EVERY buffer, start, n and fuel:
+    * `_skip_scope` is called at most `min n (|buf| - pos + 1)` times — past the end of the stream `_skip_scope` raises, so `n`
+      enters only through that minimum;
+    * the inner rounds of ALL these calls together: `2·rounds ≤ (|buf| - pos) + scopes + 1`, hence `rounds ≤ |buf| - pos + 1`;
+    * steps ≤ 7·rounds + scopes, hence `2·steps ≤ 7·(|buf| - pos) + 9·min n (|buf| - pos + 1) + 7` and
+      `steps ≤ 8·(|buf| - pos + 1)` whatever n. -/
+theorem seek_scopes_linear (buf : Bytes) (fuel n pos : Nat) :
+    (seekScopesC buf fuel n pos).scopes ≤ min n (buf.length - pos + 1) ∧
+    2 * (seekScopesC buf fuel n pos).rounds ≤ (buf.length - pos) + (seekScopesC buf fuel n pos).scopes + 1 ∧
+    (seekScopesC buf fuel n pos).rounds ≤ buf.length - pos + 1 ∧
+    2 * (seekScopesC buf fuel n pos).steps ≤ 7 * (buf.length - pos) + 9 * min n (buf.length - pos + 1) + 7 ∧
+    (seekScopesC buf fuel n pos).steps ≤ 8 * (buf.length - pos + 1) := by
+  obtain ⟨h1, h2, h3, h4⟩ := seek_scopes_invariant buf fuel n pos
+  by_cases hl : buf.length < pos
+  · obtain ⟨a, b⟩ := h3 hl
+    omega
+  · obtain ⟨a, b⟩ := h4 (by omega)
+    omega
+
+/-- `seek_to_scope(n)` with its `seek(first_scope)` -/
+theorem seek_to_scope_linear (buf : Bytes) (first n : Nat) :
+    (seekToScopeC buf first n).scopes ≤ min n (buf.length - first + 1) ∧
+    (seekToScopeC buf first n).rounds ≤ buf.length - first + 1 ∧
+    2 * (seekToScopeC buf first n).steps ≤ 7 * (buf.length - first) + 9 * min n (buf.length - first + 1) + 9 ∧
+    (seekToScopeC buf first n).steps ≤ 8 * (buf.length - first + 1) + 1 := by
+  obtain ⟨h1, _, h3, h4, h5⟩ := seek_scopes_linear buf (buf.length + 2) n first
+  unfold seekToScopeC
+  simp only
+  omega
+
+/-- past the end: started at or beyond `|buf|` with n ≥ 1, the first `_skip_scope` raises after one round -/
+theorem seek_scopes_past_end (buf : Bytes) (fuel n pos : Nat) (h : buf.length ≤ pos) :
+    (seekScopesC buf (fuel + 1) (n + 1) pos).pos = none ∧ (seekScopesC buf (fuel + 1) (n + 1) pos).scopes = 1 ∧
+    (seekScopesC buf (fuel + 1) (n + 1) pos).rounds = 1 := by
+  have hc : compactAt buf pos = none := by
+    cases hq : compactAt buf pos with
+    | none => rfl
+    | some q => obtain ⟨v, p⟩ := q; have := (compactAt_progress hq).1; omega
+  have hb : skipScopeBody buf () pos = (.fail, 2) := by simp [skipScopeBody, skipStringAt, hc]
+  have hr : (skipScopeC buf (fuel + 1) pos) = ⟨.fail, 1, 1 + 2⟩ := by
+    unfold skipScopeC loop; rw [hb]
+  unfold seekScopesC
+  simp [hr]
+
+/-- ERASURE: the position reached is that of `View.scopeOffset.go` of the C05 model when both use the same inner fuel -/
+theorem seek_scopes_erases (buf : Bytes) : ∀ (n pos : Nat),
+    (seekScopesC buf (buf.length + 1) n pos).pos = View.scopeOffset.go buf n pos := by
+  intro n
+  induction n with
+  | zero => intro pos; simp [seekScopesC, View.scopeOffset.go]
+  | succ n ih =>
+    intro pos
+    have he := skip_scope_erases buf (buf.length + 1) pos
+    unfold seekScopesC View.scopeOffset.go
+    rw [he]
+    simp only
+    cases ho : (skipScopeC buf (buf.length + 1) pos).out with
+    | done a p => simp only; exact ih p
+    | cont s p => simp
+    | fail => simp
+
+-- two scopes (one pair + separator, separator), then the end: n = 1000 stops at the third call
+example : (seekToScopeC [1, 7, 1, 9, 0, 0] 0 1000).scopes = 3 ∧ (seekToScopeC [1, 7, 1, 9, 0, 0] 0 1000).rounds = 4 ∧
+    (seekToScopeC [1, 7, 1, 9, 0, 0] 0 2).pos = some 6 := by decide +kernel
 
 end Embit.Props.C17V
